@@ -156,13 +156,26 @@ def replay_history_case(case):
     for i, o in enumerate(rec["hist"]):
         op = o["op"]
         n += 1
-        if op in ("index", "window"):
+        if op in ("index", "window", "slice"):
             ch = chans.get(o["ch"])
             if ch is None:
                 continue
             req = {"kind": op}
-            req.update({k: o[k] for k in ("i", "off", "len") if k in o})
+            req.update({k: o[k] for k in ("i", "off", "len", "start", "stop", "step") if k in o})
             got = perform(ch, req)
+            if op == "window" and o["off"] < 0:
+                # outside C04's domain (offset >= 0): what matters here is only that the request behaves as on a fresh
+                # file and leaves no state behind; the oracle is the same request on a freshly opened file
+                ff = TdmsFile.open(io.BytesIO(e.data), raw_timestamps=True)
+                exp = perform(ff["grp"][o["ch"]], req)
+                ff.close()
+                exp.pop("msg", None)
+                g2 = dict(got)
+                g2.pop("msg", None)
+                if g2 != exp:
+                    fail(i, o, exp, got)
+                    break
+                continue
             if o["res"]["err"]:
                 exp = {"err": o["res"]["err"]}
                 ok = got.get("err") == exp["err"]
@@ -213,7 +226,7 @@ def replay_history_case(case):
             if (got == "stop") != bool(o["res"]["stop"]):
                 obs["chunking_differs_from_model"] = obs.get("chunking_differs_from_model", 0) + 1
     f.close()
-    key = zlib.crc32(repr((shape, [(o["op"], o.get("ch"), o.get("i"), o.get("off"), o.get("len"), o.get("it"))
+    key = zlib.crc32(repr((shape, [(o["op"], o.get("ch"), o.get("i"), o.get("off"), o.get("len"), o.get("it"), o.get("start"), o.get("stop"), o.get("step"))
                                   for o in rec["hist"]])).encode())
-    nontrivial = sum(1 for o in rec["hist"] if o["op"] in ("index", "window", "next")) >= 2
+    nontrivial = sum(1 for o in rec["hist"] if o["op"] in ("index", "window", "slice", "next")) >= 2
     return {"n": n, "keys": [key] if nontrivial else [], "fails": fails, "validated": 1, "obs": obs}
